@@ -172,7 +172,9 @@ STOPS_NOTE = (" The shipped stop conditions (gsc.py: RootStopped, AllStopped, Si
               "DontStop, DontRun; lsc.py: AllChildrenStopped; with DemeTree.all_demes / n_evaluations) are translated as well (coq/Gen/GenStops.v) and proved to answer, in every state "
               "whose demes sit on configured levels, exactly the verdict the machine computes (Proofs/GenEquivStops.v); FitnessEvalLimitReached's normalisation of its `weights` argument (None / strategy name / list; "
               "_transform_weights under __call__'s guard, with the number of levels it is given) is translated too and proved equal to the weights the machine is configured "
-              "with (effective_weights_ok, weights_nlevels_ok; 'equal' = the plain total, 'root' = the root level only); float-valued conditions stay oracles.")
+              "with (effective_weights_ok, weights_nlevels_ok; 'equal' = the plain total, 'root' = the root level only); SingularProblemPrecisionReached is translated as a read of the hit_precision flag of the "
+              "wrapper it was constructed with (Gen/GenStopsPrecision.v; with the wrapper model of Model/Problem.v: holds exactly when some forwarded value was within the precision, and "
+              "latches — Proofs/GenEquivStopsPrecision.v); its verdicts in the machine replay, and FitnessSteadiness, stay oracles.")
 
 
 def install(g, pid, *, text, note, technique, quick, thorough, mons=None, forces=None, nontrivial=None, rule="", extra_checks=None,
